@@ -73,6 +73,11 @@ func mkParser(name string) parser.FieldValueParser {
 		return parser.NewStrHashParser()
 	case "numrange":
 		return parser.NewNumRangeParser()
+	case "dense": // the common parser with the library's dense allocator (ids 0, 1, 2, ... in order of first appearance)
+		// set through the exported field; to the model it is the common parser: ids are an injective naming of texts
+		p := parser.NewCommonParser()
+		p.StrIDAllocator = parser.NewIDAllocatorImpl()
+		return p
 	// the geohash parser is not in the Coq model: used by C16's panic-freedom probe only
 	case "geohash":
 		return parser.NewGeoHashParser(nil)
@@ -299,6 +304,18 @@ func docIDs(l be.DocIDList) []int64 {
 // runIndexQueries runs the queries of a case against a built index; returns the ires literals.
 func runIndexQueries(index be.BEIndex, qs []eQuery, obs *e2eObs) []string {
 	var out []string
+	type heldList struct {
+		at   int
+		q    *eQuery
+		docs be.DocIDList
+		hits string
+	}
+	var held []heldList // the lists Retrieve handed out, kept by the caller and read again after all later retrievals
+	defer func() {
+		for _, h := range held {
+			out[h.at] = fmt.Sprintf("(%s, IRes %s %s)", h.q.coq(), zlist(docIDs(h.docs)), h.hits)
+		}
+	}()
 	for i := range qs {
 		q := &qs[i]
 		var docs be.DocIDList
@@ -328,6 +345,7 @@ func runIndexQueries(index be.BEIndex, qs []eQuery, obs *e2eObs) []string {
 				obs.Results = append(obs.Results, "err(collector)")
 			} else {
 				lit = fmt.Sprintf("IRes %s %s", zlist(docIDs(docs)), hitsCoq(rec.hits))
+				held = append(held, heldList{at: len(out), q: q, docs: docs, hits: hitsCoq(rec.hits)})
 				obs.Results = append(obs.Results, fmt.Sprintf("docs=%v", docIDs(docs)))
 				if len(docs) > 0 {
 					obs.AnyHit = true
